@@ -339,6 +339,8 @@ def rule_exhaust(ctx, funcs=None, R="R-C04-EXHAUST"):
         conj = guard_conjuncts(node, par, loops[0])
         if any((f.where, t_) in CUTOFFS for c_ in conj for t_ in canon_texts(c_)):
           continue
+        if any(is_success_test(c_) or (isinstance(c_, ast.UnaryOp) and isinstance(c_.op, ast.Not) and is_success_test(c_.operand)) for c_ in conj):
+          continue                   # the candidate has been tested: this is the "no luck, next one" exit
         g = enclosing_guard(node, par, loops[0])
         probs.append("`continue` under `%s` skips a candidate before it is tested and is not a documented cut-off" % (norm(g) if g is not None else "no condition"))
         continue
